@@ -22,9 +22,15 @@ theorem put_if_none_match_star_only_absent (cfg : Cfg) (rights : Rights) (user :
   put_if_none_match cfg rights user s p body e raw imc pc hpc htag hnc
 
 theorem delete_if_match_only_current (cfg : Cfg) (rights : Rights) (user : String) (s : Store) (p : Path) (e : Option Nat)
-    (parent : Path) (c : Coll) (h : String) (it : Item) (hr : resolve s p = .item parent c h it) :
-    ∀ u, (deleteU cfg rights user s p (some e)).2 = some u → e = some it.cid :=
-  delete_if_match cfg rights user s p e parent c h it hr
+    (parent : Path) (c : Coll) (h : String) (it : Item) (hr : resolve s p = .item parent c h it) (imc) :
+    ∀ u, (deleteU cfg rights user s p (some e) imc).2 = some u → e = some it.cid :=
+  delete_if_match cfg rights user s p e parent c h it hr imc
+
+/-- … and a collection is deleted under If-Match only if the header is its current ETag -/
+theorem delete_collection_if_match_only_current (cfg : Cfg) (rights : Rights) (user : String) (s : Store) (p : Path) (e : Option Nat)
+    (c : Coll) (hr : resolve s p = .coll p c) (imc) :
+    ∀ u, (deleteU cfg rights user s p (some e) imc).2 = some u → imc = some (collEtag c) :=
+  delete_coll_if_match cfg rights user s p e c hr imc
 
 /-- a precondition that fails means 4xx-or-nothing: the store is unchanged -/
 theorem failed_precondition_changes_nothing (cfg : Cfg) (rights : Rights) (user : String) (s : Store) (r : Req)
